@@ -10,6 +10,9 @@ RULE = ("complete enumeration: 15 keys x every interval in [-300,300] and 48 far
         "(all / even pitches only), get_position first, distances in reverse order first, transposing sequences and "
         "bars with keys, tokeniser annotations, repeated transposition chains; distinct = distinct (prelude, argument "
         "tuple); non-trivial = all but interval 0 / a == b")
+SCALE = ("all 128 x 128 pitch pairs and all intervals -36..36 handed over as numpy integers of five widths (int64, int32, int16, uint8, int8); "
+         "key transposition reached through the outer objects: EVERY ordered pair of the 15 keys as two key signatures of one sequence and as "
+         "(bar key, key message inside the bar) x every interval -12..12")
 ASSUMPTIONS = ["tonic table and major-scale pattern of the oracle are written independently in this file"]
 REQUIRED_FLAGS = ["transpose_multiple_of_12", "transpose_negative", "enharmonic_key_transposed", "cof_tritone", "transpose_beyond_pitch_range", "numpy_integer_arguments", "key_transposed_through_objects"] + \
                  ["prelude:" + x for x in ("none", "key_guess", "from_distance_first", "tokeniser_info")]
